@@ -10,8 +10,35 @@ one (`rfl`), so the model may call either.
 -/
 import ElfioVerif.Model.Load
 namespace ElfioVerif
-namespace LoadTie
 open Gen
+
+/-! ### reference forms of the loader loops
+
+The loops the loader proofs (LoadSafety, LoadSpec, LoadMembers, C15, C17) were written against:
+structural recursion on the number of remaining headers, the class fixed by the caller.  The model
+(`loadSectionsLoopG`, `loadSegmentsLoopG` in Model/Load.lean) evaluates the generated loop condition,
+class dispatch and failure test instead; `LoadTie.loadSectionsLoopG_eq` / `loadSegmentsLoopG_eq` prove
+the two equal, so every theorem about these forms is a theorem about the model. -/
+
+def loadSectionsLoop (c : Cls) (enc : Enc) (tr : List Trans) (isLazy : Bool) (shoff : Int) (entsize : Nat) :
+    Nat → Nat → LoadSt → List SecBuf → LoadSt × List SecBuf
+  | 0, _, ls, acc => (ls, acc.reverse)
+  | n + 1, i, ls, acc =>
+    let (ls, b) := secLoad c enc tr ls (shoff + (Int.ofNat i) * (Int.ofNat entsize)) isLazy i
+    loadSectionsLoop c enc tr isLazy shoff entsize n (i + 1) ls (b :: acc)
+
+def loadSegmentsLoop (c : Cls) (enc : Enc) (tr : List Trans) (isLazy : Bool) (phoff : Int) (entsize : Nat)
+    (secs : List SecBuf) : Nat → Nat → LoadSt → List Seg → LoadSt × List Seg × Bool
+  | 0, _, ls, acc => (ls, acc.reverse, true)
+  | n + 1, i, ls, acc =>
+    let (ls, g, ok) := segLoad c enc tr ls (phoff + (Int.ofNat i) * (Int.ofNat entsize)) isLazy
+    if !ok || ls.st.fail then (ls, acc.reverse, false)
+    else
+      let members := (secs.filter (memberOf g)).map (fun b => BitVec.ofNat 16 b.index)
+      let g := { g with index := i, secs := members }
+      loadSegmentsLoop c enc tr isLazy phoff entsize secs n (i + 1) ls (g :: acc)
+
+namespace LoadTie
 
 /-! ### `section_impl<T>::load` / `segment_impl<T>::load` -/
 
@@ -246,6 +273,456 @@ theorem seg32_load_data_readn_eq : seg32_load_data_readn = seg64_load_data_readn
 
 /-- `pstream->read( data.get(), size )` -/
 @[simp] theorem segReadN_val (c : Cls) (size : BitVec 64) : segReadN c size = size := by cases c <;> rfl
+
+/-! ### `elfio::load_sections` / `elfio::load_segments` -/
+
+/-- `i < num` on two `Elf_Half` promoted to `int` -/
+theorem half_lt (i n : BitVec 16) :
+    BitVec.slt (BitVec.setWidth 32 i) (BitVec.setWidth 32 n) = decide (i.toNat < n.toNat) := by
+  have hi := i.isLt
+  have hn := n.isLt
+  simp only [BitVec.slt, BitVec.toInt_eq_toNat_cond, BitVec.toNat_setWidth, Nat.reducePow]
+  rw [Nat.mod_eq_of_lt (by omega), Nat.mod_eq_of_lt (by omega)]
+  simp only [show 2 * i.toNat < 4294967296 by omega, show 2 * n.toNat < 4294967296 by omega, if_true]
+  simp
+
+theorem load_sections_for_val (i n : BitVec 16) : load_sections_for i n = decide (i.toNat < n.toNat) :=
+  half_lt i n
+theorem load_segments_for_val (i n : BitVec 16) : load_segments_for i n = decide (i.toNat < n.toNat) :=
+  half_lt i n
+
+theorem half_succ (i n : BitVec 16) (h : i.toNat < n.toNat) : (i + 1).toNat = i.toNat + 1 := by
+  have hn := n.isLt
+  have h1 : (1 : BitVec 16).toNat = 1 := rfl
+  rw [BitVec.toNat_add, h1]
+  simp only [Nat.reducePow]
+  omega
+
+/-- the section loop with the generated condition runs exactly `num - i` iterations -/
+theorem loadSectionsLoopG_eq (c : Cls) (enc : Enc) (tr : List Trans) (isLazy : Bool) (shoff : Int)
+    (entsize : Nat) (num : BitVec 16) :
+    ∀ (fuel : Nat) (i : BitVec 16) (ls : LoadSt) (acc : List SecBuf),
+      i.toNat ≤ num.toNat → num.toNat - i.toNat ≤ fuel →
+      loadSectionsLoopG c enc tr isLazy shoff entsize num fuel i ls acc =
+        loadSectionsLoop c enc tr isLazy shoff entsize (num.toNat - i.toNat) i.toNat ls acc := by
+  intro fuel
+  induction fuel with
+  | zero =>
+    intro i ls acc _ hf
+    have : num.toNat - i.toNat = 0 := by omega
+    rw [this]; rfl
+  | succ f ih =>
+    intro i ls acc hle hf
+    unfold loadSectionsLoopG
+    rw [load_sections_for_val]
+    by_cases hlt : i.toNat < num.toNat
+    · have hs := half_succ i num hlt
+      have e : num.toNat - i.toNat = (num.toNat - (i + 1).toNat) + 1 := by omega
+      simp only [hlt, decide_true, if_true]
+      rw [e, loadSectionsLoop]
+      simp only []
+      rw [ih (i + 1) _ _ (by omega) (by omega), hs]
+    · have : num.toNat - i.toNat = 0 := by omega
+      simp only [hlt, decide_false, Bool.false_eq_true, if_false, this]
+      rfl
+
+/-- `file_class == ELFCLASS64` / `== ELFCLASS32` select the instantiation of the file's class -/
+def classByteOf (c : Cls) : Nat := match c with | .c32 => ELFCLASS32 | .c64 => ELFCLASS64
+
+theorem segClassOf_classByte (c : Cls) : segClassOf (BitVec.ofNat 8 (classByteOf c)) = some c := by
+  cases c <;> decide
+
+/-- `!seg->load( … ) || stream.fail()` -/
+theorem load_segments_failed_val (ok fail : Bool) : load_segments_failed ok fail = (!ok || fail) := rfl
+
+/-- the segment loop with the generated condition, class dispatch and failure test -/
+theorem loadSegmentsLoopG_eq (c : Cls) (enc : Enc) (tr : List Trans) (isLazy : Bool) (phoff : Int)
+    (entsize : Nat) (secs : List SecBuf) (fileClass : BitVec 8) (num : BitVec 16)
+    (hcls : segClassOf fileClass = some c) :
+    ∀ (fuel : Nat) (i : BitVec 16) (ls : LoadSt) (acc : List Seg),
+      i.toNat ≤ num.toNat → num.toNat - i.toNat ≤ fuel →
+      loadSegmentsLoopG enc tr isLazy phoff entsize secs fileClass num fuel i ls acc =
+        loadSegmentsLoop c enc tr isLazy phoff entsize secs (num.toNat - i.toNat) i.toNat ls acc := by
+  intro fuel
+  induction fuel with
+  | zero =>
+    intro i ls acc _ hf
+    have : num.toNat - i.toNat = 0 := by omega
+    rw [this]; rfl
+  | succ f ih =>
+    intro i ls acc hle hf
+    unfold loadSegmentsLoopG
+    rw [load_segments_for_val]
+    by_cases hlt : i.toNat < num.toNat
+    · have hs := half_succ i num hlt
+      have e : num.toNat - i.toNat = (num.toNat - (i + 1).toNat) + 1 := by omega
+      simp only [hlt, decide_true, if_true, hcls]
+      rw [e, loadSegmentsLoop]
+      generalize segLoad c enc tr ls (phoff + Int.ofNat i.toNat * Int.ofNat entsize) isLazy = r
+      obtain ⟨ls', g, ok⟩ := r
+      simp only [load_segments_failed_val]
+      by_cases hfl : (!ok || ls'.st.fail) = true
+      · simp only [hfl, if_true]
+      · simp only [hfl, if_false, Bool.false_eq_true]
+        rw [ih (i + 1) _ _ (by omega) (by omega), hs]
+    · have : num.toNat - i.toNat = 0 := by omega
+      simp only [hlt, decide_false, Bool.false_eq_true, if_false, this]
+      rfl
+
+/-- `SHN_UNDEF != shstrndx` -/
+theorem load_sections_has_strtab_val (x : BitVec 16) :
+    load_sections_has_strtab x = !(x == BitVec.ofNat 16 SHN_UNDEF) := by
+  have e : SHN_UNDEF = 0 := rfl
+  unfold load_sections_has_strtab
+  rw [e]
+  by_cases h : x = 0
+  · subst h; decide
+  · have h1 : (x == BitVec.ofNat 16 0) = false := by simpa using h
+    have h2 : BitVec.ofNat 32 0 ≠ BitVec.setWidth 32 x := by
+      intro hh
+      apply h
+      have := congrArg BitVec.toNat hh
+      simp only [BitVec.toNat_ofNat, BitVec.toNat_setWidth, Nat.reducePow, Nat.zero_mod] at this
+      have hx := x.isLt
+      rw [Nat.mod_eq_of_lt (by omega)] at this
+      exact BitVec.eq_of_toNat_eq (by simpa using this.symm)
+    rw [h1, bne_iff_ne.mpr h2]; rfl
+
+/-- `if ( p != nullptr ) sections[i]->set_name( p )` -/
+theorem resolveNames_nil (strtab : SecBuf) : resolveNames strtab [] = pure [] := rfl
+
+theorem resolveNames_cons (strtab : SecBuf) (b : SecBuf) (rest : List SecBuf) :
+    resolveNames strtab (b :: rest) =
+      (getString strtab b.nameOff >>= fun r =>
+        resolveNames strtab rest >>= fun rest' =>
+          pure ((match r with | some s => { b with name := s } | none => b) :: rest')) := by
+  rw [resolveNames]
+  congr 1
+  funext r
+  cases r <;> rfl
+
+/-! ### `elfio::load( std::istream&, bool )` and `elf_header_impl<T>::load` -/
+
+/-- `e_ident[i] != ELFMAGi` on a `char` promoted to `int` -/
+theorem magic0 : ∀ v : BitVec 8,
+    (BitVec.signExtend 32 v != BitVec.setWidth 32 (BitVec.ofNat 8 ELFMAG0)) = (v.toNat != ELFMAG0) := by decide
+theorem magic1 : ∀ v : BitVec 8,
+    (BitVec.signExtend 32 v != BitVec.setWidth 32 (BitVec.ofNat 8 ELFMAG1)) = (v.toNat != ELFMAG1) := by decide
+theorem magic2 : ∀ v : BitVec 8,
+    (BitVec.signExtend 32 v != BitVec.setWidth 32 (BitVec.ofNat 8 ELFMAG2)) = (v.toNat != ELFMAG2) := by decide
+theorem magic3 : ∀ v : BitVec 8,
+    (BitVec.signExtend 32 v != BitVec.setWidth 32 (BitVec.ofNat 8 ELFMAG3)) = (v.toNat != ELFMAG3) := by decide
+
+theorem identChar_toNat (ident : Bytes) (i : Nat) : (identChar ident i).toNat = (ident.getD i 0).toNat := by
+  unfold identChar
+  have := (ident.getD i 0).toNat_lt
+  simp only [BitVec.toNat_ofNat, Nat.reducePow]
+  omega
+
+/-- the signature test -/
+theorem load_bad_magic_val (g : Nat) (hg : g < 18446744073709551616) (ident : Bytes) :
+    load_bad_magic (BitVec.ofNat 64 g) (identChar ident EI_MAG0) (identChar ident EI_MAG1)
+        (identChar ident EI_MAG2) (identChar ident EI_MAG3) =
+      (g != 16 || ((ident.getD 0 0).toNat != ELFMAG0 || (ident.getD 1 0).toNat != ELFMAG1 ||
+        (ident.getD 2 0).toNat != ELFMAG2 || (ident.getD 3 0).toNat != ELFMAG3)) := by
+  unfold load_bad_magic
+  rw [magic0, magic1, magic2, magic3, identChar_toNat, identChar_toNat, identChar_toNat, identChar_toNat,
+    show (16#64 : BitVec 64) = BitVec.ofNat 64 16 from rfl, ofNat64_bne g 16 hg (by decide)]
+  simp only [Bool.or_assoc]
+  rfl
+
+theorem bad_class_bv : ∀ v : BitVec 8, load_bad_class v = (clsOfByte v.toNat).isNone := by decide
+theorem bad_enc_bv : ∀ v : BitVec 8, load_bad_enc v = (encOfByte v.toNat).isNone := by decide
+
+theorem load_bad_class_val (ident : Bytes) :
+    load_bad_class (identChar ident EI_CLASS) = (clsOfByte (ident.getD EI_CLASS 0).toNat).isNone := by
+  rw [bad_class_bv, identChar_toNat]
+theorem load_bad_enc_val (ident : Bytes) :
+    load_bad_enc (identChar ident EI_DATA) = (encOfByte (ident.getD EI_DATA 0).toNat).isNone := by
+  rw [bad_enc_bv, identChar_toNat]
+
+theorem hdr32_load_ok_eq_shape : hdr32_load_ok (BitVec.ofNat 64 sizeof_Elf32_Ehdr) = true := by decide
+theorem hdr64_load_ok_eq_shape : hdr64_load_ok (BitVec.ofNat 64 sizeof_Elf64_Ehdr) = true := by decide
+
+/-- `return ( stream.gcount() == sizeof( header ) )` and its use `if ( !header->load( stream ) )` -/
+theorem load_hdr_failed_val (c : Cls) (g : Nat) (hg : g < 18446744073709551616) :
+    load_hdr_failed (hdrLoadOk c (BitVec.ofNat 64 g)) = (g != ehdrSize c) := by
+  have key : ∀ n, n < 18446744073709551616 →
+      (!(BitVec.ofNat 64 g == BitVec.ofNat 64 n)) = (g != n) := by
+    intro n hn
+    have := ofNat64_bne g n hg hn
+    simpa [bne] using this
+  cases c
+  · exact key sizeof_Elf32_Ehdr (by decide)
+  · exact key sizeof_Elf64_Ehdr (by decide)
+
+theorem seekg_of_ok (st : IStream) (p : Int) (h0 : 0 ≤ p) (hf : st.fail = false)
+    (hk : st.kind = .str → p.toNat ≤ st.data.length) :
+    st.seekg p = { st with eof := false, pos := p.toNat } := by
+  unfold IStream.seekg
+  simp only [hf, Bool.false_eq_true, if_false, show ¬ p < 0 by omega]
+  cases hkind : st.kind
+  · simp only [hk hkind, if_true]
+  · rfl
+
+theorem seekg_good (st : IStream) (p : Int) (hg : (st.seekg p).fail = false) :
+    0 ≤ p ∧ st.fail = false ∧ (st.kind = .str → p.toNat ≤ st.data.length) := by
+  unfold IStream.seekg at hg
+  by_cases hf : st.fail = true
+  · simp [hf] at hg
+  · have hf' : st.fail = false := by simpa using hf
+    simp only [hf', Bool.false_eq_true, if_false] at hg
+    by_cases hp : p < 0
+    · simp [hp] at hg
+    · simp only [hp, if_false] at hg
+      refine ⟨by omega, hf', fun hk => ?_⟩
+      simp only [hk] at hg
+      by_cases hl : p.toNat ≤ st.data.length
+      · exact hl
+      · simp [hl] at hg
+
+theorem read_full_state (s : IStream) (n : Nat) (h : (s.read n).1.gcount = n) (hn : 0 < n) :
+    s.fail = false ∧ s.eof = false ∧ (s.read n).1 = { s with pos := s.pos + n, gcount := n } ∧
+    (s.read n).2 = slice s.data s.pos n := by
+  unfold IStream.read at h ⊢
+  by_cases hg : s.good = true
+  · simp only [hg, Bool.not_true, Bool.false_eq_true, if_false] at h ⊢
+    have hfe : s.fail = false ∧ s.eof = false := by
+      unfold IStream.good at hg; simp at hg; exact ⟨hg.2, hg.1⟩
+    by_cases hl : (slice s.data s.pos n).length = n
+    · simp only [hl, if_true]
+      exact ⟨hfe.1, hfe.2, trivial, trivial⟩
+    · simp only [hl, if_false] at h
+  · simp [hg] at h; omega
+
+
+/-- reading the header again from the same position yields the identification bytes again -/
+theorem reread_getD (st : IStream) (p : Int) (n i : Nat) (hi : i < 16) (hn : 16 ≤ n)
+    (h1 : ((st.seekg p).read 16).1.gcount = 16)
+    (h2 : ((((st.seekg p).read 16).1.seekg p).read n).1.gcount = n) :
+    ((((st.seekg p).read 16).1.seekg p).read n).2.getD i 0 = ((st.seekg p).read 16).2.getD i 0 := by
+  obtain ⟨f0, e0, s1, d1⟩ := read_full_state (st.seekg p) 16 h1 (by decide)
+  obtain ⟨hp, hf, hk⟩ := seekg_good st p f0
+  have hs0 := seekg_of_ok st p hp hf hk
+  rw [s1] at h2 ⊢
+  rw [d1]
+  have hs2 : ({ st.seekg p with pos := (st.seekg p).pos + 16, gcount := 16 } : IStream).seekg p =
+      { st with eof := false, pos := p.toNat, gcount := 16 } := by
+    rw [seekg_of_ok _ p hp (by simpa using f0) (by rw [hs0]; simpa using hk)]
+    rw [hs0]
+  rw [hs2] at h2 ⊢
+  obtain ⟨-, -, -, d2⟩ := read_full_state _ n h2 (by omega)
+  rw [d2, hs0]
+  simp only [slice, List.getD_eq_getElem?_getD, List.getElem?_take, List.getElem?_drop, hi,
+    show i < n by omega, if_true]
+
+/-- the part of the reference `load` after the header was read -/
+def loadTablesHand (o : Obj) (c : Cls) (enc : Enc) (hdr : Bytes) (st : IStream) (isLazy : Bool) : M LoadRes := do
+  -- load_sections
+  let num := Hdr.e_shnum c enc hdr
+  let entsize := Hdr.e_shentsize c enc hdr
+  let shoff := Hdr.e_shoff c enc hdr
+  let clsByte : BitVec 8 := Hdr.ident hdr EI_CLASS
+  let ls : LoadSt := { st := st }
+  let (ls, secs) :=
+    if load_sections_entsize_bad num clsByte entsize then (ls, ([] : List SecBuf))
+    else loadSectionsLoop c enc o.trans isLazy shoff.toInt entsize.toNat num.toNat 0 ls []
+  let (ls, secs) ←
+    if load_sections_entsize_bad num clsByte entsize then pure (ls, secs) else do
+      let shstrndx := Hdr.e_shstrndx c enc hdr
+      if shstrndx == BitVec.ofNat 16 SHN_UNDEF then pure (ls, secs) else
+      match secs[shstrndx.toNat]? with
+      | none => pure (ls, secs)
+      | some strtab =>
+        let (ls, strtab) := secGetData c o.trans ls strtab
+        let secs := secs.set shstrndx.toNat strtab
+        let secs ← resolveNames strtab secs
+        pure (ls, secs)
+  -- load_segments
+  let pnum := Hdr.e_phnum c enc hdr
+  let pentsize := Hdr.e_phentsize c enc hdr
+  let phoff := Hdr.e_phoff c enc hdr
+  if load_segments_entsize_bad pnum clsByte pentsize then
+    pure { obj := { o with secs := secs, stream := ls.st }, ok := false, allocs := ls.allocs }
+  else
+    let (ls, segs, ok) :=
+      loadSegmentsLoop c enc o.trans isLazy phoff.toInt pentsize.toNat secs pnum.toNat 0 ls []
+    pure { obj := { o with secs := secs, segs := segs, stream := ls.st }, ok := ok, allocs := ls.allocs }
+
+
+/-- `elfio::load` as the loader proofs see it: hand-written gate conditions, reference loops -/
+def loadHand (o : Obj) (st : IStream) (isLazy : Bool) : M LoadRes := do
+  let o := { o with secs := [], segs := [] }
+  let st := st.seekg (trApply o.trans 0)
+  let (st, ident) := st.read 16
+  let fail (o : Obj) (st : IStream) (al : List Nat) : M LoadRes :=
+    pure { obj := { o with stream := st }, ok := false, allocs := al }
+  if st.gcount != 16 then fail o st [] else
+  let idb (i : Nat) : Nat := (ident.getD i 0).toNat
+  if idb 0 != ELFMAG0 || idb 1 != ELFMAG1 || idb 2 != ELFMAG2 || idb 3 != ELFMAG3 then fail o st [] else
+  match clsOfByte (idb EI_CLASS), encOfByte (idb EI_DATA) with
+  | none, _ => fail o st []
+  | some _, none => fail o st []
+  | some c, some enc =>
+    -- convertor.setup; create_header; header->load
+    let st := st.seekg (trApply o.trans 0)
+    let (st, got) := st.read (ehdrSize c)
+    let hdr := wr (Hdr.create c enc (idb EI_DATA)) 0 got
+    let o := { o with cls := c, enc := enc, hdr := some hdr }
+    if st.gcount != ehdrSize c then fail o st [] else
+    -- load_sections
+    let num := Hdr.e_shnum c enc hdr
+    let entsize := Hdr.e_shentsize c enc hdr
+    let shoff := Hdr.e_shoff c enc hdr
+    let clsByte : BitVec 8 := Hdr.ident hdr EI_CLASS
+    let ls : LoadSt := { st := st }
+    let (ls, secs) :=
+      if load_sections_entsize_bad num clsByte entsize then (ls, ([] : List SecBuf))
+      else loadSectionsLoop c enc o.trans isLazy shoff.toInt entsize.toNat num.toNat 0 ls []
+    let (ls, secs) ←
+      if load_sections_entsize_bad num clsByte entsize then pure (ls, secs) else do
+        let shstrndx := Hdr.e_shstrndx c enc hdr
+        if shstrndx == BitVec.ofNat 16 SHN_UNDEF then pure (ls, secs) else
+        match secs[shstrndx.toNat]? with
+        | none => pure (ls, secs)
+        | some strtab =>
+          let (ls, strtab) := secGetData c o.trans ls strtab
+          let secs := secs.set shstrndx.toNat strtab
+          let secs ← resolveNames strtab secs
+          pure (ls, secs)
+    -- load_segments
+    let pnum := Hdr.e_phnum c enc hdr
+    let pentsize := Hdr.e_phentsize c enc hdr
+    let phoff := Hdr.e_phoff c enc hdr
+    if load_segments_entsize_bad pnum clsByte pentsize then
+      pure { obj := { o with secs := secs, stream := ls.st }, ok := false, allocs := ls.allocs }
+    else
+      let (ls, segs, ok) :=
+        loadSegmentsLoop c enc o.trans isLazy phoff.toInt pentsize.toNat secs pnum.toNat 0 ls []
+      pure { obj := { o with secs := secs, segs := segs, stream := ls.st }, ok := ok, allocs := ls.allocs }
+
+
+/-! ### header offsets of the two loops -/
+
+/-- `static_cast<std::streamoff>( offset ) + static_cast<std::streampos>( i ) * entry_size` : the header
+    offset the model computes over `Int` is the generated 64-bit expression whenever the C++ addition
+    does not overflow `streamoff` (an offset within `2^32` of `2^63`) -/
+theorem load_sections_hdr_off_val (offset : BitVec 64) (i entsize : BitVec 16)
+    (h : offset.toInt + (Int.ofNat i.toNat) * (Int.ofNat entsize.toNat) < 9223372036854775808) :
+    (load_sections_hdr_off offset i entsize).toInt =
+      offset.toInt + (Int.ofNat i.toNat) * (Int.ofNat entsize.toNat) := by
+  have hi := i.isLt
+  have he := entsize.isLt
+  have ho := offset.isLt
+  have hlt : i.toNat * entsize.toNat < 4294967296 := by
+    have := Nat.mul_lt_mul'' hi he
+    simpa using this
+  have hm : (BitVec.setWidth 64 i * BitVec.setWidth 64 entsize).toNat = i.toNat * entsize.toNat := by
+    simp only [BitVec.toNat_mul, BitVec.toNat_setWidth, Nat.reducePow]
+    rw [Nat.mod_eq_of_lt (by omega : i.toNat < 18446744073709551616),
+      Nat.mod_eq_of_lt (by omega : entsize.toNat < 18446744073709551616), Nat.mod_eq_of_lt (by omega)]
+  unfold load_sections_hdr_off
+  generalize hmv : i.toNat * entsize.toNat = m at hlt hm
+  have hcast : (Int.ofNat i.toNat) * (Int.ofNat entsize.toNat) = (m : Int) := by
+    rw [← hmv]; simp
+  rw [hcast] at h ⊢
+  simp only [BitVec.toInt_eq_toNat_cond, BitVec.toNat_add, hm, Nat.reducePow] at h ⊢
+  split at h <;> split <;> omega
+
+theorem load_segments_hdr_off_eq : load_segments_hdr_off = load_sections_hdr_off := rfl
+
+/-! ### the model's `load` is the reference form -/
+
+theorem loadTables_hand (o : Obj) (c : Cls) (enc : Enc) (hdr : Bytes) (st : IStream) (isLazy : Bool)
+    (hcls : segClassOf (Hdr.ident hdr EI_CLASS) = some c) :
+    loadTables o c enc hdr st isLazy = loadTablesHand o c enc hdr st isLazy := by
+  have hseg : ∀ (ls : LoadSt) (secs : List SecBuf),
+      loadSegmentsLoopG enc o.trans isLazy (Hdr.e_phoff c enc hdr).toInt (Hdr.e_phentsize c enc hdr).toNat secs
+        (Hdr.ident hdr EI_CLASS) (Hdr.e_phnum c enc hdr) (Hdr.e_phnum c enc hdr).toNat 0 ls [] =
+      loadSegmentsLoop c enc o.trans isLazy (Hdr.e_phoff c enc hdr).toInt (Hdr.e_phentsize c enc hdr).toNat secs
+        (Hdr.e_phnum c enc hdr).toNat 0 ls [] := by
+    intro ls secs
+    have := loadSegmentsLoopG_eq c enc o.trans isLazy (Hdr.e_phoff c enc hdr).toInt
+      (Hdr.e_phentsize c enc hdr).toNat secs _ (Hdr.e_phnum c enc hdr) hcls (Hdr.e_phnum c enc hdr).toNat 0 ls []
+      (by simp) (by simp)
+    simpa using this
+  have hsec : ∀ (ls : LoadSt),
+      loadSectionsLoopG c enc o.trans isLazy (Hdr.e_shoff c enc hdr).toInt (Hdr.e_shentsize c enc hdr).toNat
+        (Hdr.e_shnum c enc hdr) (Hdr.e_shnum c enc hdr).toNat 0 ls [] =
+      loadSectionsLoop c enc o.trans isLazy (Hdr.e_shoff c enc hdr).toInt (Hdr.e_shentsize c enc hdr).toNat
+        (Hdr.e_shnum c enc hdr).toNat 0 ls [] := by
+    intro ls
+    have := loadSectionsLoopG_eq c enc o.trans isLazy (Hdr.e_shoff c enc hdr).toInt
+      (Hdr.e_shentsize c enc hdr).toNat (Hdr.e_shnum c enc hdr) (Hdr.e_shnum c enc hdr).toNat 0 ls []
+      (by simp) (by simp)
+    simpa using this
+  unfold loadTables loadTablesHand loadSectionsM loadSegmentsM
+  simp only [hseg, hsec, load_sections_has_strtab_val]
+  by_cases hp : load_segments_entsize_bad (Hdr.e_phnum c enc hdr) (Hdr.ident hdr EI_CLASS) (Hdr.e_phentsize c enc hdr) = true <;>
+  by_cases hb : load_sections_entsize_bad (Hdr.e_shnum c enc hdr) (Hdr.ident hdr EI_CLASS) (Hdr.e_shentsize c enc hdr) = true <;>
+  simp only [hp, hb, if_true, if_false, Bool.false_eq_true, pure_bind] <;>
+  (try rfl) <;>
+  by_cases hu : (Hdr.e_shstrndx c enc hdr == BitVec.ofNat 16 SHN_UNDEF) = true <;>
+  simp only [hu, Bool.not_true, Bool.not_false, Bool.false_eq_true, if_false, if_true, pure_bind] <;>
+  (try rfl)
+  all_goals
+    generalize loadSectionsLoop c enc o.trans isLazy (Hdr.e_shoff c enc hdr).toInt (Hdr.e_shentsize c enc hdr).toNat
+      (Hdr.e_shnum c enc hdr).toNat 0 { st := st } [] = q
+    cases q.2[(Hdr.e_shstrndx c enc hdr).toNat]? <;> simp only [pure_bind, bind_assoc] <;> rfl
+
+
+theorem wr0_getD (z src : Bytes) (i : Nat) (h : i < src.length) : (wr z 0 src).getD i 0 = src.getD i 0 := by
+  unfold wr
+  simp [List.getD_eq_getElem?_getD, List.getElem?_append, h]
+
+theorem clsOfByte_some (x : Nat) (c : Cls) (h : clsOfByte x = some c) : x = classByteOf c := by
+  unfold clsOfByte at h
+  split at h
+  · cases h; assumption
+  · split at h
+    · cases h; assumption
+    · cases h
+
+theorem sixteen_le_ehdrSize (c : Cls) : 16 ≤ ehdrSize c := by cases c <;> decide
+
+theorem load_hand (o : Obj) (st : IStream) (isLazy : Bool) : load o st isLazy = loadHand o st isLazy := by
+  unfold load loadHand
+  simp only []
+  generalize hr1 : (st.seekg (trApply o.trans 0)).read 16 = r1
+  have hg1 : r1.1.gcount ≤ 16 := by rw [← hr1]; exact read_gcount_le _ _
+  rw [load_bad_magic_val r1.1.gcount (by omega) r1.2, load_bad_class_val, load_bad_enc_val]
+  simp only [load_no_header]
+  by_cases hc16 : (r1.1.gcount != 16) = true
+  · simp only [hc16, Bool.true_or, if_true]
+  · simp only [hc16, Bool.false_or]
+    split
+    · rfl
+    · cases hcl : clsOfByte (r1.2.getD EI_CLASS 0).toNat <;> cases hen : encOfByte (r1.2.getD EI_DATA 0).toNat <;>
+        simp only [Option.isNone_none, Option.isNone_some, if_true, Bool.false_eq_true, if_false]
+      rename_i c enc
+      have h16 := sixteen_le_ehdrSize c
+      have hg2 := read_gcount_le (r1.1.seekg (trApply o.trans 0)) (ehdrSize c)
+      have he : ehdrSize c ≤ 64 := by cases c <;> decide
+      rw [load_hdr_failed_val c _ (by omega)]
+      by_cases h2 : (((r1.1.seekg (trApply o.trans 0)).read (ehdrSize c)).1.gcount != ehdrSize c) = true
+      · simp only [h2, if_true]
+      · simp only [h2, if_false, Bool.false_eq_true]
+        have h2' : ((r1.1.seekg (trApply o.trans 0)).read (ehdrSize c)).1.gcount = ehdrSize c := by simpa using h2
+        have h1' : r1.1.gcount = 16 := by simpa using hc16
+        have hlen : ((r1.1.seekg (trApply o.trans 0)).read (ehdrSize c)).2.length = ehdrSize c := by
+          have := IStream.read_full _ _ h2' (by omega)
+          rw [this.1]; simp [slice]; omega
+        have hcls : segClassOf (Hdr.ident (wr (Hdr.create c enc (r1.2.getD EI_DATA 0).toNat) 0
+            ((r1.1.seekg (trApply o.trans 0)).read (ehdrSize c)).2) EI_CLASS) = some c := by
+          unfold Hdr.ident
+          rw [wr0_getD _ _ _ (by rw [hlen]; have : EI_CLASS = 4 := rfl; omega)]
+          subst hr1
+          rw [reread_getD st (trApply o.trans 0) (ehdrSize c) EI_CLASS (by decide) h16 h1' h2',
+            clsOfByte_some _ c hcl]
+          exact segClassOf_classByte c
+        rw [loadTables_hand _ _ _ _ _ _ hcls]
+        rfl
+
 
 end LoadTie
 end ElfioVerif
